@@ -28,13 +28,16 @@ const (
 	kStruct
 	kFunc
 	kTuple
-	kAbs // the state of an abstract (wrapped) container
+	kAbs  // the state of an abstract (wrapped) container
+	kMap  // a Go map with Z keys and Z values (GoMap.gmap); struct{} values are 0
+	kIter // a local iterator variable `it := x.Iterator()`: stands for the enumeration list Enum
 )
 
 type ty struct {
 	K       kind
 	S       *structInfo
 	A       *absIface
+	Enum    string // kIter: the Gallina term of the (index-or-key, value) list the iterator walks
 	Params  []ty
 	Results []ty
 }
@@ -52,7 +55,9 @@ type absIface struct {
 	Dir     string // package directory of the wrapped type
 	Type    string // its type name
 	Pure    map[string]bool
-	Methods map[string]*funcInfo // the methods called so far
+	Fixed   bool // the interface is declared in the whitelist: nothing else may be called
+	filling bool
+	Methods map[string]*funcInfo // the interface (declared, or the methods called so far)
 	pos     token.Pos
 }
 
@@ -101,6 +106,7 @@ type funcInfo struct {
 	Results   []param // Name == "" when unnamed
 	Writes    bool
 	Abs       *absIface       // method of an abstract interface (no body)
+	Static    bool            // ... a package-level function of the abstract container's package (constructor)
 	Variadic  bool            // the last parameter is variadic (a slice)
 	Partial   bool            // may panic or runs a fuelled loop: result is an option
 	Fuel      bool            // takes a fuel parameter
@@ -111,20 +117,24 @@ type funcInfo struct {
 }
 
 type unit struct {
-	Spec     unitSpec
-	File     *ast.File
-	Dir      string
-	Imports  map[string]string // local package name -> directory relative to repo
-	Structs  []*structInfo
-	Consts   map[string]ast.Expr // package-level constants of the file
-	UsesRT   bool                // some function uses the runtime's allocation policy (alloc_cap)
-	Abs      []*absIface
-	Funcs    []*funcInfo // translated, in emission order
-	Skipped  [][2]string
-	NotSel   []string
-	Deps     map[string]bool
-	Sha      string
-	SrcLines int
+	Spec      unitSpec
+	File      *ast.File
+	Dir       string
+	Imports   map[string]string // local package name -> directory relative to repo
+	Structs   []*structInfo
+	Consts    map[string]ast.Expr // package-level constants of the file
+	UsesRT    bool                // some function uses the runtime's allocation policy (alloc_cap)
+	IterEnums []*structInfo       // structs whose Iterator() is an abstract enumeration (Section variable)
+	UsesMap   bool                // GoMap.v is needed
+	UsesMO    bool                // some function ranges over a map (map_order)
+	PkgVars   map[string]ast.Expr // package-level variables with an initialiser
+	Abs       []*absIface
+	Funcs     []*funcInfo // translated, in emission order
+	Skipped   [][2]string
+	NotSel    []string
+	Deps      map[string]bool
+	Sha       string
+	SrcLines  int
 }
 
 type translator struct {
@@ -180,8 +190,20 @@ func (t *translator) findFunc(dir, name string, from *unit) *funcInfo {
 
 // the method `name` of an abstract container: parameter / result types are read from its Go declaration
 func (t *translator) absMethod(a *absIface, name string, at token.Pos) *funcInfo {
-	if fi, ok := a.Methods[name]; ok {
+	return t.absFunc(a, name, false, at)
+}
+
+// static: a package-level function of the container's package (New, NewWith, ...), key "pkg.<name>"
+func (t *translator) absFunc(a *absIface, name string, static bool, at token.Pos) *funcInfo {
+	key := name
+	if static {
+		key = "pkg." + name
+	}
+	if fi, ok := a.Methods[key]; ok {
 		return fi
+	}
+	if a.Fixed && !a.filling {
+		t.unsupported(at, "call of %s on the abstract container %s.%s: not in the interface declared for field %s in whitelist.go", key, a.Dir, a.Type, a.Field)
 	}
 	files, ok := t.absPkgs[a.Dir]
 	if !ok {
@@ -210,6 +232,16 @@ func (t *translator) absMethod(a *absIface, name string, at token.Pos) *funcInfo
 			if !ok || fd.Name.Name != name {
 				continue
 			}
+			if static {
+				if fd.Recv != nil {
+					continue
+				}
+				if found != nil {
+					t.unsupported(at, "function %s declared twice in %s", name, a.Dir)
+				}
+				found, tps = fd, typeParamNames(fd.Type.TypeParams)
+				continue
+			}
 			_, rt, tp, ok := recvInfo(fd)
 			if !ok || rt != a.Type {
 				continue
@@ -228,7 +260,24 @@ func (t *translator) absMethod(a *absIface, name string, at token.Pos) *funcInfo
 		t.unsupported(at, "abstract container %s.%s has no method %s", a.Dir, a.Type, name)
 	}
 	fi := &funcInfo{Name: name, Coq: a.Field + "_" + name, Abs: a, Writes: !a.Pure[name], Needs: map[string]bool{}, TypeParms: tps, Decl: found}
+	if static {
+		fi.Static, fi.Writes, fi.Coq = true, false, a.Field+"_pkg_"+name
+	}
 	c := tctx{&unit{Dir: a.Dir, Imports: map[string]string{}}, tps}
+	// the container type itself (*Type[T]) in a signature is the abstract state
+	self := func(e ast.Expr) bool {
+		if s, ok := e.(*ast.StarExpr); ok {
+			e = s.X
+		}
+		switch x := e.(type) {
+		case *ast.IndexExpr:
+			e = x.X
+		case *ast.IndexListExpr:
+			e = x.X
+		}
+		id, ok := e.(*ast.Ident)
+		return ok && id.Name == a.Type
+	}
 	for _, p := range found.Type.Params.List {
 		pt := p.Type
 		if el, isVar := pt.(*ast.Ellipsis); isVar {
@@ -248,13 +297,20 @@ func (t *translator) absMethod(a *absIface, name string, at token.Pos) *funcInfo
 		}
 	}
 	for _, p := range fieldList(found.Type.Results) {
+		if self(p.typ) {
+			fi.Results = append(fi.Results, param{"", ty{K: kAbs, A: a}})
+			continue
+		}
 		x := t.resolveType(p.typ, c)
 		if x.K == kStruct || x.K == kFunc {
 			t.unsupported(at, "abstract method %s.%s returns a struct / function", a.Type, name)
 		}
 		fi.Results = append(fi.Results, param{"", x})
 	}
-	a.Methods[name] = fi
+	if static && (len(fi.Results) != 1 || fi.Results[0].Ty.K != kAbs) {
+		t.unsupported(at, "package-level function %s.%s does not return the container", a.Dir, name)
+	}
+	a.Methods[key] = fi
 	return fi
 }
 
@@ -325,6 +381,8 @@ func (t *translator) coqType(x ty, from *unit) string {
 		return "(" + strings.Join(parts, " -> ") + ")"
 	case kTuple:
 		return t.resultType(x.Results, from)
+	case kMap:
+		return "GoMap.gmap"
 	case kAbs:
 		return "(" + x.A.Field + "_T " + x.A.Field + "_I)"
 	}
@@ -354,7 +412,7 @@ func zero(x ty) (string, bool) {
 	case kSlice:
 		return "(@Datatypes.nil Z)", true
 	}
-	return "", false
+	return "", false // a nil map is not modelled (writing to it panics)
 }
 
 func (f *fx) zeroOf(x ty) (string, bool) {
@@ -555,6 +613,29 @@ func (t *translator) resolveType(e ast.Expr, c tctx) ty {
 		return r
 	case *ast.ParenExpr:
 		return t.resolveType(x.X, c)
+	case *ast.MapType:
+		k, v := t.resolveType(x.Key, c), t.resolveType(x.Value, c)
+		if (k.K != kElem && k.K != kInt) || (v.K != kElem && v.K != kInt) {
+			t.unsupported(x.Pos(), "map whose key / value types are not type parameters, int or struct{}")
+		}
+		c.u.UsesMap = true
+		return ty{K: kMap}
+	case *ast.StructType:
+		if x.Fields == nil || len(x.Fields.List) == 0 {
+			return ty{K: kElem} // struct{}: the only value is translated as 0
+		}
+		t.unsupported(x.Pos(), "anonymous struct type")
+	case *ast.IndexListExpr: // Generic[K, V]
+		for _, ix := range x.Indices {
+			if a := t.resolveType(ix, c); a.K != kElem && a.K != kInt {
+				t.unsupported(x.Pos(), "generic instantiation with something else than type parameters / int")
+			}
+		}
+		r := t.resolveType(x.X, c)
+		if r.K != kStruct {
+			t.unsupported(x.Pos(), "instantiation of a non-struct generic type")
+		}
+		return r
 	case *ast.Ellipsis: // variadic parameter: a slice
 		return t.resolveType(&ast.ArrayType{Lbrack: x.Pos(), Elt: x.Elt}, c)
 	}
@@ -605,6 +686,18 @@ func recvInfo(fd *ast.FuncDecl) (name, typ string, tparms []string, ok bool) {
 				return name, id.Name, []string{tp.Name}, true
 			}
 		}
+	case *ast.IndexListExpr:
+		if id, isId := x.X.(*ast.Ident); isId {
+			var tps []string
+			for _, ix := range x.Indices {
+				tp, isId2 := ix.(*ast.Ident)
+				if !isId2 {
+					return "", "", nil, false
+				}
+				tps = append(tps, tp.Name)
+			}
+			return name, id.Name, tps, true
+		}
 	}
 	return "", "", nil, false
 }
@@ -615,6 +708,7 @@ type varInfo struct {
 	ty    ty
 	depth int
 	seq   int
+	param bool // a parameter (not the receiver)
 }
 
 type env struct {
@@ -650,14 +744,16 @@ type rebindLog struct {
 }
 
 type fx struct {
-	t     *translator
-	fi    *funcInfo
-	u     *unit
-	logs  []*rebindLog
-	aux   []string // auxiliary definitions (loop fixpoints), emitted before the function
-	nloop int
-	tmp   int
-	dry   int // >0: collecting assigned variables only
+	t           *translator
+	fi          *funcInfo
+	u           *unit
+	logs        []*rebindLog
+	aux         []string // auxiliary definitions (loop fixpoints), emitted before the function
+	nloop       int
+	tmp         int
+	dry         int             // >0: collecting assigned variables only
+	staticIface *absIface       // while translating the value of an abstract field in a composite literal
+	iterLive    map[string]bool // iterator variables whose loop body is being translated
 }
 
 type cont func(e env) string
@@ -668,6 +764,14 @@ func (f *fx) rebind(n string, e env) {
 	vi, ok := e.vars[n]
 	if !ok {
 		return
+	}
+	if vi.param && (vi.ty.K == kStruct || vi.ty.K == kSlice || vi.ty.K == kMap || vi.ty.K == kAbs) {
+		// the caller would see this through the pointer / the shared backing array: not modelled
+		f.bad(f.fi.Decl.Pos(), "%s modifies its parameter %s (a struct pointer, slice or map): effects on the caller's value are not modelled", f.fi.Name, n)
+	}
+	if f.fi.Recv != nil && n == f.fi.RecvName && !f.fi.Writes {
+		// safety net: the syntactic write analysis and the translation must agree
+		f.bad(f.fi.Decl.Pos(), "internal: %s modifies its receiver but was analysed as read-only", f.fi.Name)
 	}
 	for _, l := range f.logs {
 		if vi.depth <= l.threshold {
@@ -766,6 +870,13 @@ func (f *fx) expr(x ast.Expr, e env) (string, ty) {
 		}
 		if vi, ok := e.vars[n.Name]; ok {
 			return vname(n.Name), vi.ty
+		}
+		if pv, ok := f.u.PkgVars[n.Name]; ok {
+			if cl, ok := pv.(*ast.CompositeLit); ok && len(cl.Elts) == 0 {
+				if st, ok := cl.Type.(*ast.StructType); ok && (st.Fields == nil || len(st.Fields.List) == 0) {
+					return "0", ty{K: kElem} // a package variable holding struct{}{}
+				}
+			}
 		}
 		f.bad(n.Pos(), "identifier %s (not a local variable, parameter or receiver)", n.Name)
 	case *ast.UnaryExpr:
@@ -892,6 +1003,13 @@ func (f *fx) expr(x ast.Expr, e env) (string, ty) {
 		return f.selector(n, e)
 	case *ast.IndexExpr:
 		a, ta := f.expr(n.X, e)
+		if ta.K == kMap {
+			k, tk := f.expr(n.Index, e)
+			if tk.K != kElem && tk.K != kInt {
+				f.bad(n.Index.Pos(), "map key that is not T / int")
+			}
+			return "(GoMap.gm_read " + a + " " + k + ")", ty{K: kElem}
+		}
 		if ta.K != kSlice {
 			f.bad(n.Pos(), "indexing something that is not a slice")
 		}
@@ -947,6 +1065,9 @@ func (f *fx) selector(n *ast.SelectorExpr, e env) (string, ty) {
 }
 
 func (f *fx) composite(cl *ast.CompositeLit, e env) (string, ty) {
+	if st, ok := cl.Type.(*ast.StructType); ok && (st.Fields == nil || len(st.Fields.List) == 0) && len(cl.Elts) == 0 {
+		return "0", ty{K: kElem} // struct{}{}
+	}
 	t := f.t.resolveType(cl.Type, tctx{f.u, f.fi.TypeParms})
 	if t.K != kStruct {
 		f.bad(cl.Pos(), "composite literal of a non-struct type")
@@ -965,7 +1086,14 @@ func (f *fx) composite(cl *ast.CompositeLit, e env) (string, ty) {
 		if fl == nil {
 			f.bad(el.Pos(), "unknown field %s", k.Name)
 		}
+		if fl.Ty.K == kAbs {
+			f.staticIface = fl.Ty.A
+		}
 		v, tv := f.expr(kv.Value, e)
+		f.staticIface = nil
+		if fl.Ty.K == kAbs && (tv.K != kAbs || tv.A != fl.Ty.A) {
+			f.bad(el.Pos(), "abstract field %s initialised with something that is not its container", k.Name)
+		}
 		if fl.Container {
 			if tv.K != kStruct || tv.S != fl.Ty.S {
 				f.bad(el.Pos(), "container reference initialised with an unexpected value")
@@ -1099,6 +1227,50 @@ func (f *fx) call(c *ast.CallExpr, e env) (string, []ty, *funcInfo) {
 			f.bad(c.Pos(), "variadic call f(xs...) of something that is not a whitelisted function")
 		}
 	}
+	{ // pkg.F(...) / pkg.F[T](...) where pkg is the package of an abstract container of this unit
+		fun := c.Fun
+		switch x := fun.(type) {
+		case *ast.IndexExpr:
+			fun = x.X
+		case *ast.IndexListExpr:
+			fun = x.X
+		}
+		if sel, ok := fun.(*ast.SelectorExpr); ok {
+			if id, ok := sel.X.(*ast.Ident); ok {
+				if _, shadow := e.vars[id.Name]; !shadow {
+					if dir, isPkg := f.u.Imports[id.Name]; isPkg && dir != "<std>/slices" {
+						a := f.staticIface
+						if a == nil || a.Dir != dir {
+							a = nil
+							for _, cand := range f.u.Abs {
+								if cand.Dir == dir {
+									if a != nil {
+										f.bad(c.Pos(), "call of %s.%s: several abstract fields of this file have a type of that package", id.Name, sel.Sel.Name)
+									}
+									a = cand
+								}
+							}
+						}
+						if a == nil {
+							f.bad(c.Pos(), "call of %s.%s: not the package of an abstract container of this file", id.Name, sel.Sel.Name)
+						}
+						return f.apply(c, f.t.absFunc(a, sel.Sel.Name, true, c.Pos()), "", nil, e)
+					}
+				}
+			}
+		}
+	}
+	if ix, ok := c.Fun.(*ast.IndexExpr); ok { // F[T](...)
+		if id, ok := ix.X.(*ast.Ident); ok {
+			if a := f.t.resolveType(ix.Index, tctx{f.u, f.fi.TypeParms}); a.K == kElem || a.K == kInt {
+				if info := f.t.findFunc(f.u.Dir, id.Name, f.u); info != nil {
+					if _, shadow := e.vars[id.Name]; !shadow {
+						return f.apply(c, info, "", nil, e)
+					}
+				}
+			}
+		}
+	}
 	switch fn := c.Fun.(type) {
 	case *ast.Ident:
 		switch fn.Name {
@@ -1108,6 +1280,9 @@ func (f *fx) call(c *ast.CallExpr, e env) (string, []ty, *funcInfo) {
 			}
 			if _, shadow := e.vars["len"]; !shadow {
 				a, ta := f.expr(c.Args[0], e)
+				if ta.K == kMap {
+					return "(GoMap.gm_len " + a + ")", []ty{{K: kInt}}, nil
+				}
 				if ta.K != kSlice {
 					f.bad(c.Pos(), "len of something that is not a slice")
 				}
@@ -1146,6 +1321,13 @@ func (f *fx) call(c *ast.CallExpr, e env) (string, []ty, *funcInfo) {
 			}
 		case "make":
 			if _, shadow := e.vars["make"]; !shadow {
+				if len(c.Args) >= 1 {
+					if _, isMap := c.Args[0].(*ast.MapType); isMap {
+						if mt := f.t.resolveType(c.Args[0], tctx{f.u, f.fi.TypeParms}); mt.K == kMap && len(c.Args) <= 2 {
+							return "GoMap.gm_empty", []ty{mt}, nil // the size hint has no observable effect
+						}
+					}
+				}
 				if len(c.Args) < 2 || len(c.Args) > 3 {
 					f.bad(c.Pos(), "make with %d arguments", len(c.Args))
 				}
@@ -1191,7 +1373,26 @@ func (f *fx) call(c *ast.CallExpr, e env) (string, []ty, *funcInfo) {
 				return f.slicesCall(c, fn.Sel.Name, e)
 			}
 		}
+		if id, ok := fn.X.(*ast.Ident); ok {
+			if vi, ok := e.vars[id.Name]; ok && vi.ty.K == kIter {
+				if !f.iterLive[id.Name] || len(c.Args) != 0 {
+					f.bad(c.Pos(), "use of the iterator %s outside the body of its `for %s.Next()` loop", id.Name, id.Name)
+				}
+				switch fn.Sel.Name {
+				case "Index":
+					return vname(id.Name) + "_key", []ty{{K: kInt}}, nil
+				case "Key":
+					return vname(id.Name) + "_key", []ty{{K: kElem}}, nil
+				case "Value":
+					return vname(id.Name) + "_val", []ty{{K: kElem}}, nil
+				}
+				f.bad(c.Pos(), "iterator method %s (only Index / Key / Value inside the loop)", fn.Sel.Name)
+			}
+		}
 		rs, tr := f.expr(fn.X, e)
+		if tr.K == kIter {
+			f.bad(c.Pos(), "iterator used as a value")
+		}
 		if tr.K == kAbs {
 			info := f.t.absMethod(tr.A, fn.Sel.Name, c.Pos())
 			return f.apply(c, info, rs, fn.X, e)
@@ -1222,14 +1423,14 @@ func (f *fx) apply(c *ast.CallExpr, info *funcInfo, recv string, recvExpr ast.Ex
 	}
 	var s string
 	if info.Abs != nil {
-		s = "(" + info.Abs.Field + "_" + info.Name + " " + info.Abs.Field + "_I"
+		s = "(" + info.Coq + " " + info.Abs.Field + "_I"
 	} else {
 		s = "(" + qual(info.Unit, f.u, info.Coq)
 	}
 	if info.Fuel {
 		f.bad(c.Pos(), "call of the fuelled function %s", info.Name)
 	}
-	if info.Abs != nil {
+	if info.Abs != nil && !info.Static {
 		s += " " + recv
 	}
 	if info.Recv != nil {
@@ -1346,6 +1547,13 @@ func (f *fx) assign(lhs ast.Expr, val string, tv ty, define bool, e env) (string
 	case *ast.IndexExpr:
 		if tv.K != kElem && tv.K != kInt {
 			f.bad(l.Pos(), "slice element assigned a value that is not T / int")
+		}
+		if cur, tc := f.expr(l.X, e); tc.K == kMap { // m[k] = v
+			k, tk := f.expr(l.Index, e)
+			if tk.K != kElem && tk.K != kInt {
+				f.bad(l.Index.Pos(), "map key that is not T / int")
+			}
+			return f.assign(l.X, "(GoMap.gm_put "+cur+" "+k+" "+val+")", tc, false, e)
 		}
 		i, ti := f.expr(l.Index, e)
 		f.want(l.Index, ti, kInt)
@@ -1515,6 +1723,27 @@ func (f *fx) stmts(ss []ast.Stmt, e env, k cont, top bool) string {
 				return f.builtinStmt(c, id.Name, e, next)
 			}
 		}
+		if id, isId := c.Fun.(*ast.Ident); isId && (id.Name == "delete" || id.Name == "clear") && len(c.Args) >= 1 {
+			if _, shadow := e.vars[id.Name]; !shadow {
+				if ms, tm := f.expr(c.Args[0], e); tm.K == kMap {
+					val := "GoMap.gm_empty" // clear(m)
+					if id.Name == "delete" {
+						if len(c.Args) != 2 {
+							f.bad(c.Pos(), "delete with %d arguments", len(c.Args))
+						}
+						k, tk := f.expr(c.Args[1], e)
+						if tk.K != kElem && tk.K != kInt {
+							f.bad(c.Args[1].Pos(), "map key that is not T / int")
+						}
+						val = "(GoMap.gm_del " + ms + " " + k + ")"
+					} else if len(c.Args) != 1 {
+						f.bad(c.Pos(), "clear with %d arguments", len(c.Args))
+					}
+					p, e2 := f.assign(c.Args[0], val, tm, false, e)
+					return p + next(e2)
+				}
+			}
+		}
 		if id, isId := c.Fun.(*ast.Ident); isId && id.Name == "panic" {
 			if !f.fi.Partial {
 				f.bad(n.Pos(), "internal: panic in a function not marked partial")
@@ -1524,6 +1753,9 @@ func (f *fx) stmts(ss []ast.Stmt, e env, k cont, top bool) string {
 		p, _, _, e2 := f.callStmt(c, e)
 		return p + next(e2)
 	case *ast.AssignStmt:
+		if f.isIterDefine(n, e) {
+			return f.iterLoop(n, rest, e, k, top)
+		}
 		return f.assignStmt(n, e, next)
 	case *ast.ReturnStmt:
 		return f.ret(n, e)
@@ -1620,6 +1852,22 @@ func (f *fx) assignStmt(n *ast.AssignStmt, e env, next cont) string {
 		for _, l := range n.Lhs {
 			if _, ok := l.(*ast.Ident); !ok {
 				f.bad(l.Pos(), ":= with a target that is not an identifier")
+			}
+		}
+	}
+	// v, ok = m[k]
+	if len(n.Lhs) == 2 && len(n.Rhs) == 1 {
+		if ix, ok := n.Rhs[0].(*ast.IndexExpr); ok {
+			if ms, tm := f.expr(ix.X, e); tm.K == kMap {
+				k, tk := f.expr(ix.Index, e)
+				if tk.K != kElem && tk.K != kInt {
+					f.bad(ix.Index.Pos(), "map key that is not T / int")
+				}
+				t1, t2 := f.fresh(), f.fresh()
+				out := "let '(" + t1 + ", " + t2 + ") := (GoMap.gm_lookup " + ms + " " + k + ") in\n"
+				p1, e2 := f.assign(n.Lhs[0], t1, ty{K: kElem}, define, e)
+				p2, e3 := f.assign(n.Lhs[1], t2, ty{K: kBool}, define, e2)
+				return out + p1 + p2 + next(e3)
 			}
 		}
 	}
@@ -1952,8 +2200,11 @@ func (f *fx) rangeStmt(n *ast.RangeStmt, rest []ast.Stmt, e env, k cont, next co
 	}
 	key, val := name(n.Key), name(n.Value)
 	xs, tx := f.expr(n.X, e)
+	if tx.K == kMap {
+		return f.rangeMap(n, key, val, xs, e, next)
+	}
 	if tx.K != kSlice {
-		f.bad(n.X.Pos(), "range over something that is not a slice")
+		f.bad(n.X.Pos(), "range over something that is not a slice or a map")
 	}
 	f.nloop++
 	idx := "ri" + strconv.Itoa(f.nloop)
@@ -2024,6 +2275,212 @@ func (f *fx) rangeStmt(n *ast.RangeStmt, rest []ast.Stmt, e env, k cont, next co
 	return "(" + fname + " " + indices + " " + strings.Join(args, " ") + ")"
 }
 
+// for k, v := range m over a map: the iteration order is unspecified in Go, so the entries are visited in
+// the order given by the PARAMETER map_order (any enumeration of the map); no return inside the body.
+func (f *fx) rangeMap(n *ast.RangeStmt, key, val, ms string, e env, next cont) string {
+	if hasExit(n.Body) {
+		f.bad(n.Pos(), "return inside a range over a map")
+	}
+	f.u.UsesMO = true
+	f.nloop++
+	kv := "kv" + strconv.Itoa(f.nloop)
+	ein := e.deeper()
+	pre := ""
+	if key != "" {
+		ein = ein.with(key, ty{K: kElem})
+		pre += "let " + vname(key) + " := fst " + kv + " in\n"
+	}
+	if val != "" {
+		ein = ein.with(val, ty{K: kElem})
+		pre += "let " + vname(val) + " := snd " + kv + " in\n"
+	}
+	ein = env{vars: ein.vars, depth: ein.depth + 1}
+	body := func(kk cont) string { return f.stmts(n.Body.List, ein, kk, false) }
+	ms2 := f.assignedBy(e, func() { body(func(env) string { return "" }) })
+	rv := readVars(n.X)
+	for _, m := range ms2 {
+		if rv[m] {
+			f.bad(n.Pos(), "the loop body modifies %s, which the ranged map expression reads", m)
+		}
+	}
+	lv := &rebindLog{threshold: ein.depth, names: map[string]bool{}}
+	f.logs = append(f.logs, lv)
+	f.dry++
+	body(func(env) string { return "" })
+	f.dry--
+	f.logs = f.logs[:len(f.logs)-1]
+	if (key != "" && lv.names[key]) || (val != "" && lv.names[val]) {
+		f.bad(n.Pos(), "loop body assigns a range variable")
+	}
+	if len(ms2) == 0 {
+		f.bad(n.Pos(), "range loop without any effect on variables or fields")
+	}
+	b := body(func(env) string { return tuple(ms2) })
+	for _, m := range ms2 {
+		f.rebind(m, e)
+	}
+	binder := vname(ms2[0])
+	if len(ms2) > 1 {
+		binder = "'" + tuple(ms2)
+	}
+	return "let " + letPat(ms2) + " :=\n  List.fold_left (fun " + binder + " (" + kv + " : Z * Z) =>\n" + pre + b +
+		")\n  (map_order " + ms + ") " + tuple(ms2) + " in\n" + next(e)
+}
+
+// it := x.Iterator() where Iterator is not a translated method of this unit
+func (f *fx) isIterDefine(n *ast.AssignStmt, e env) bool {
+	if n.Tok != token.DEFINE || len(n.Lhs) != 1 || len(n.Rhs) != 1 {
+		return false
+	}
+	c, ok := n.Rhs[0].(*ast.CallExpr)
+	if !ok || len(c.Args) != 0 {
+		return false
+	}
+	sel, ok := c.Fun.(*ast.SelectorExpr)
+	if !ok || sel.Sel.Name != "Iterator" {
+		return false
+	}
+	if _, ok := n.Lhs[0].(*ast.Ident); !ok {
+		return false
+	}
+	return true
+}
+
+// it := x.Iterator(); for it.Next() { body }: the iterator is the ABSTRACT enumeration of x's (index-or-key,
+// value) pairs; the loop is a fold over it (a structural Fixpoint when the body returns, top level only).
+func (f *fx) iterLoop(n *ast.AssignStmt, rest []ast.Stmt, e env, k cont, top bool) string {
+	it := n.Lhs[0].(*ast.Ident).Name
+	if _, exists := e.vars[it]; exists {
+		f.bad(n.Pos(), "iterator variable %s shadows an outer variable", it)
+	}
+	sel := n.Rhs[0].(*ast.CallExpr).Fun.(*ast.SelectorExpr)
+	xs, tx := f.expr(sel.X, e)
+	var enum string
+	switch tx.K {
+	case kStruct:
+		if m := f.t.findMethod(tx.S, "Iterator"); m != nil && m.Unit == f.u {
+			f.bad(n.Pos(), "Iterator() is a translated method of this file: iterator objects are not modelled")
+		}
+		if tx.S.Unit != f.u {
+			f.bad(n.Pos(), "Iterator() of a struct of another unit")
+		}
+		seen := false
+		for _, s := range f.u.IterEnums {
+			seen = seen || s == tx.S
+		}
+		if !seen {
+			f.u.IterEnums = append(f.u.IterEnums, tx.S)
+		}
+		enum = "(" + tx.S.Name + "_Iterator_enum " + xs + ")"
+	case kAbs:
+		a := tx.A
+		if _, ok := a.Methods["enum.Iterator"]; !ok {
+			if a.Fixed {
+				f.bad(n.Pos(), "Iterator() of the abstract container %s: not in the interface declared in whitelist.go", a.Field)
+			}
+			a.Methods["enum.Iterator"] = &funcInfo{Name: "Iterator", Coq: a.Field + "_Iterator_enum", Abs: a, Needs: map[string]bool{}}
+		}
+		enum = "(" + a.Field + "_Iterator_enum " + a.Field + "_I " + xs + ")"
+	default:
+		f.bad(n.Pos(), "Iterator() of something that is neither a struct of this file nor an abstract container")
+	}
+	if len(rest) == 0 {
+		f.bad(n.Pos(), "iterator %s is not followed by its `for %s.Next()` loop", it, it)
+	}
+	loop, ok := rest[0].(*ast.ForStmt)
+	okCond := false
+	if ok && loop.Init == nil && loop.Post == nil && loop.Cond != nil {
+		if c, isCall := loop.Cond.(*ast.CallExpr); isCall && len(c.Args) == 0 {
+			if s2, isSel := c.Fun.(*ast.SelectorExpr); isSel && s2.Sel.Name == "Next" {
+				if id, isId := s2.X.(*ast.Ident); isId && id.Name == it {
+					okCond = true
+				}
+			}
+		}
+	}
+	if !okCond {
+		f.bad(n.Pos(), "iterator %s is not immediately followed by `for %s.Next() { ... }`", it, it)
+	}
+	after := rest[1:]
+	ast.Inspect(loop.Body, func(x ast.Node) bool {
+		switch y := x.(type) {
+		case *ast.BranchStmt:
+			f.bad(y.Pos(), "%s inside a loop", y.Tok)
+		case *ast.ForStmt, *ast.RangeStmt:
+			f.bad(y.Pos(), "nested loop")
+		}
+		return true
+	})
+	for _, s := range after { // the iterator must not be used after its loop
+		ast.Inspect(s, func(x ast.Node) bool {
+			if id, ok := x.(*ast.Ident); ok && id.Name == it {
+				f.bad(id.Pos(), "iterator %s used after its loop", it)
+			}
+			return true
+		})
+	}
+	f.nloop++
+	kv := "kv" + strconv.Itoa(f.nloop)
+	lst := vname(it)
+	e1 := e.with(it, ty{K: kIter, Enum: enum})
+	ein := e1.deeper()
+	ein = env{vars: ein.vars, depth: ein.depth + 1}
+	pre := "let " + vname(it) + "_key := fst " + kv + " in\nlet " + vname(it) + "_val := snd " + kv + " in\n"
+	if f.iterLive == nil {
+		f.iterLive = map[string]bool{}
+	}
+	body := func(kk cont) string {
+		f.iterLive[it] = true
+		s := f.stmts(loop.Body.List, ein, kk, false)
+		f.iterLive[it] = false
+		return s
+	}
+	ms := f.assignedBy(e1, func() { body(func(env) string { return "" }) })
+	rv := readVars(sel.X)
+	for _, m := range ms {
+		if rv[m] {
+			f.bad(loop.Pos(), "the loop body modifies %s, which the iterated container expression reads", m)
+		}
+	}
+	head := "let " + lst + " := " + enum + " in\n"
+	if !hasExit(loop.Body) {
+		if len(ms) == 0 {
+			f.bad(loop.Pos(), "iterator loop without any effect on variables or fields")
+		}
+		b := body(func(env) string { return tuple(ms) })
+		for _, m := range ms {
+			f.rebind(m, e1)
+		}
+		binder := vname(ms[0])
+		if len(ms) > 1 {
+			binder = "'" + tuple(ms)
+		}
+		return head + "let " + letPat(ms) + " :=\n  List.fold_left (fun " + binder + " (" + kv + " : Z * Z) =>\n" + pre + b +
+			")\n  " + lst + " " + tuple(ms) + " in\n" + f.stmts(after, e1, k, top)
+	}
+	if !top {
+		f.bad(loop.Pos(), "iterator loop with a return that is not at the top level of the function body")
+	}
+	fname := f.fi.Coq + "_loop" + strconv.Itoa(f.nloop)
+	vars := e.ordered()
+	var binders, args []string
+	for _, v := range vars {
+		vi := e.vars[v]
+		nm := strings.TrimSuffix(v, "@container")
+		binders = append(binders, "("+vname(nm)+" : "+f.t.coqType(vi.ty, f.u)+")")
+		args = append(args, vname(nm))
+	}
+	recur := "(" + fname + " rest' " + strings.Join(args, " ") + ")"
+	exit := f.stmts(after, e1, k, false)
+	b := body(func(env) string { return recur })
+	def := "Fixpoint " + fname + " (rest : Datatypes.list (Z * Z)) " + strings.Join(binders, " ") + " {struct rest} : " + f.retType() + " :=\n" +
+		"match rest with\n| Datatypes.nil => (" + exit + ")\n| Datatypes.cons " + kv + " rest' =>\n" + pre + "(" + b + ")\nend.\n"
+	if f.dry == 0 {
+		f.aux = append(f.aux, def)
+	}
+	return head + "(" + fname + " " + lst + " " + strings.Join(args, " ") + ")"
+}
+
 func (f *fx) retType() string {
 	var rs []ty
 	for _, r := range f.fi.Results {
@@ -2079,6 +2536,9 @@ func (t *translator) translateFunc(fi *funcInfo) {
 			t.unsupported(fi.Decl.Pos(), "parameter %s has the name of the receiver", p.Name)
 		}
 		e = e.with(p.Name, p.Ty)
+		pv := e.vars[p.Name]
+		pv.param = true
+		e.vars[p.Name] = pv
 		binders = append(binders, "("+vname(p.Name)+" : "+t.coqType(p.Ty, fi.Unit)+")")
 	}
 	pre := ""
